@@ -492,6 +492,10 @@ pub fn any_dispatch<const B: u8>() {
             0xf6 => assert!(matches!(r, Ok(Shape::None)) && d.decoder().position() == 1),
             0xfa => assert!(matches!(r, Ok(Shape::F32(x)) if x == u32::from_be_bytes(a)) && d.decoder().position() == 5),
             0x42 => assert!(matches!(r, Ok(Shape::Bytes(x)) if x.len() == 2 && x[0] == a[0] && x[1] == a[1]) && d.decoder().position() == 3),
+            // text arrives BORROWED from the input (visit_borrowed_str): zero-copy &str fields behind
+            // flatten / untagged / internally tagged representations depend on it
+            0x62 => { if let Ok(Shape::Str(x)) = r { assert!(x.len() == 2 && x.as_ptr() == unsafe { inp.as_ptr().add(1) } && d.decoder().position() == 3) }
+                      else { assert!(false, "text item not delivered as a borrowed str by deserialize_any") } }
             0xf7 | 0xc1 | 0xe0 | 0xff | 0x1c => assert!(r.is_err(), "undefined / tag / simple / break / reserved accepted by deserialize_any"),
             _ => {}
         }
@@ -504,6 +508,11 @@ macro_rules! any_h { ($($name:ident $b:expr),*) => { $(
     #[kani::unwind(6)]
     #[kani::stub(minicbor::decode::Decoder::skip, crate::util::skip_r3_small)]
     pub fn $name() { any_dispatch::<$b>() } )* } }
+#[kani::proof]
+#[kani::unwind(6)]
+#[kani::stub(minicbor::decode::Decoder::skip, crate::util::skip_r3_small)]
+#[kani::stub(core::str::from_utf8, crate::util::from_utf8_ok)]
+pub fn c17_any_62() { any_dispatch::<0x62>() }
 any_h!(c17_any_05 0x05, c17_any_18 0x18, c17_any_19 0x19, c17_any_1a 0x1a, c17_any_20 0x20, c17_any_38 0x38, c17_any_39 0x39,
        c17_any_f4 0xf4, c17_any_f5 0xf5, c17_any_f6 0xf6, c17_any_f7 0xf7, c17_any_fa 0xfa, c17_any_42 0x42, c17_any_c1 0xc1, c17_any_e0 0xe0, c17_any_ff 0xff);
 
